@@ -241,6 +241,11 @@ func runC03(c *eng.Ctx) {
 	ruleLockPairing(c, "commitlog/commitlog.go", "commitlog/reader.go", "commitlog/segment.go", "commitlog/index.go")
 	c.Floor(40)
 
+	// ---- R03.10 a Read fills the buffer or fails
+	c.Rule("R03.10", "K1")
+	ruleReadFillsOrFails(c)
+	c.Floor(2)
+
 	// ---- R03.4 read limit and re-sync
 	c.Rule("R03.4", "K1")
 	if fn := c.Fn("server/commitlog.(*committedReader).readLoop"); fn != nil {
